@@ -195,6 +195,18 @@ Theorem c18_code_happened_before_decides : forall tr ts, stamps vector_code tr =
 Proof. exact vector_code_happened_before. Qed.
 Print Assumptions c18_code_happened_before_decides.
 
+(** The code's own [VectorClock.is_concurrent] (as regenerated: two evaluations of
+    happened_before, each over its own arbitrary iteration order) is true exactly when
+    neither event happened before the other. *)
+Theorem c18_code_is_concurrent_decides : forall tr ts, stamps vector_code tr = Some ts ->
+  forall i j ti tj, nth_error ts i = Some ti -> nth_error ts j = Some tj ->
+  forall a b o1 o2, VectorClock__vector a = ti -> VectorClock__vector b = tj ->
+  (forall k, In k o1 <-> In k (VectorClock_happened_before_setiter_elems a b)) ->
+  (forall k, In k o2 <-> In k (VectorClock_happened_before_setiter_elems b a)) ->
+  (VectorClock_is_concurrent a b o1 o2 = true <-> ~ hb tr i j /\ ~ hb tr j i).
+Proof. exact vector_code_is_concurrent. Qed.
+Print Assumptions c18_code_is_concurrent_decides.
+
 (** ... and for all stores at once: after every store of a duplicate-free list has
     pulled every node's state, each of them reports increments minus decrements
     (hence they agree). *)
